@@ -796,8 +796,9 @@ class Interp(object):
         if isinstance(obj, (list, tuple)) and name == 'append':
             return Builtin('append', obj.append)
         if isinstance(obj, str) and name in ('lower', 'upper', 'strip',
-                                             'format', 'startswith',
-                                             'endswith', 'join'):
+                                             'lstrip', 'rstrip', 'format',
+                                             'startswith', 'endswith',
+                                             'join', 'replace', 'split'):
             return Builtin('str.' + name, getattr(obj, name))
         if isinstance(obj, dict) and name in ('items', 'keys', 'values'):
             return Builtin('dict.' + name, lambda: list(getattr(obj,
